@@ -434,6 +434,14 @@ def degenerate_bounded_instance():
         if inp['seed'] % 4 == 0 and (model.startswith('gmm') or model in ('vmfmm', 'cwmm')) and data != 'one-hot':
             # positive class masses that are not normalised over the classes (the saliency-weighted weight update renormalises)
             init = init * rng.uniform(0.5, 2.0, size=(F, 1, init.shape[-1]))
+        if inp['seed'] % 5 == 0 and model in ('cacgmm', 'cwmm', 'vmfmm', 'gmm-full', 'gmm-diagonal', 'gmm-spherical') and data == 'generic':
+            # the start drawn by the library itself (num_classes instead of an initialization), one iteration: the first M-step's weights
+            np.random.seed(inp['seed'])
+            kw_ = {'covariance_type': model[4:]} if model.startswith('gmm') else {}
+            cls_ = {'cacgmm': CACGMMTrainer, 'cwmm': CWMMTrainer, 'vmfmm': VMFMMTrainer}.get(model, GMMTrainer)
+            m = cls_().fit(y, num_classes=K, iterations=1, weight_constant_axis=wca, **kw_)
+            res.update(weight=m.weight, K=K)
+            return res
         if model == 'cacgmm-mask':
             # a source-activity mask (every class active somewhere, at least one class active everywhere)
             act = rng.rand(F, K, init.shape[-1]) < 0.7
@@ -454,7 +462,7 @@ def degenerate_bounded_instance():
                 y[:, 1::3] = y[:, 2::3][:, :y[:, 1::3].shape[1]]
             if model == 'cacgmm-opts':
                 m = CACGMMTrainer().fit(y, initialization=init, iterations=inp['it'], weight_constant_axis=wca, eigenvalue_floor=floor,
-                                        covariance_norm=norm, affiliation_eps=aeps)
+                                        covariance_norm=norm, affiliation_eps=aeps, hermitize=bool(inp['seed'] % 2))
                 w = m.weight
             else:
                 from pb_bss.distribution import GCACGMMTrainer, VMFCACGMMTrainer
